@@ -199,12 +199,29 @@ def run(prog: Program, res: Result) -> None:
     mism = [n for n in own_nodes(ia) if isinstance(n, ast.If) and any(isinstance(x, ast.Raise) and isinstance(x.exc, ast.Call)
                                                                        and dotted(x.exc.func) == "ValueError" for x in n.body)]
     okm = False
+    fcn_calls = [n for n in own_nodes(ia) if isinstance(n, ast.Call) and dotted(n.func) == "self._fcn"]
+
+    def count_of(e, what):
+        """`len(X) if <X is a list / W is not None> else 1` (either orientation), X from the _fcn call or W the weights"""
+        e = origin(ia.node, e) if isinstance(e, ast.Name) else e
+        if not isinstance(e, ast.IfExp):
+            return False
+        for (ln, one) in ((e.body, e.orelse), (e.orelse, e.body)):
+            if isinstance(one, ast.Constant) and one.value == 1 and isinstance(ln, ast.Call) and dotted(ln.func) == "len" and len(ln.args) == 1:
+                x = ln.args[0]
+                xo = origin(ia.node, x) if isinstance(x, ast.Name) else x
+                if what == "objectives" and fcn_calls and xo is fcn_calls[0] and "isinstance" in norm(e.test) and "list" in norm(e.test):
+                    return True
+                if what == "weights" and dotted(xo) == "self._task.objective_weights" and "None" in norm(e.test):
+                    return True
+        return False
     if ctor and mism:
-        t = mism[0].test
-        if isinstance(t, ast.Compare) and len(t.ops) == 1 and isinstance(t.ops[0], ast.NotEq) and mism[0].lineno < ctor[0].lineno:
-            l, r = origin(ia.node, t.left), origin(ia.node, t.comparators[0])
-            txt = norm(l, 200) + " | " + norm(r, 200)
-            okm = "len(self._task.objective_weights)" in txt and "len(cost)" in txt and "isinstance(cost, list)" in txt
+        for mm in mism:
+            t = mm.test
+            if isinstance(t, ast.Compare) and len(t.ops) == 1 and isinstance(t.ops[0], ast.NotEq) and mm.lineno < ctor[0].lineno:
+                l, r = t.left, t.comparators[0]
+                if (count_of(l, "weights") and count_of(r, "objectives")) or (count_of(r, "weights") and count_of(l, "objectives")):
+                    okm = True
     res.ob(okm, f"{ia.loc()} _init_agent rejects objective/weight count mismatch before building the agent", "count-mismatch")
     if not okm:
         bad("R2-weight-count-mismatch-rejected", ia.node, "_init_agent does not raise ValueError when the number of objectives differs from the number of weights, before any agent is built",
